@@ -2,6 +2,8 @@ HOOK_COMMITS = []
 NOTES = ("Technique family: static analysis only. Every check inspects /repo's current working tree through the rustc front end "
          "(no code of /repo is executed). Each property is claimed for the structural clauses named in level_claimed.text; "
          "the behavioural remainder is stated in level_note. fix: commits and recorded findings are listed in known_findings.json.")
+# properties whose check is reviewed and released; anything else stays under not_applicable until then
+ENABLED = ["C01", "C07", "C16", "C18", "C19"]
 NOT_APPLICABLE = {}
 CLAIMS = {
  "C01": {
